@@ -847,7 +847,13 @@ class Parser(ABC):
                 if not self.use_unique_items_as_set:
                     continue
 
-                if not (model_field.constraints and model_field.constraints.unique_items):
+                constraints = model_field.constraints
+                unique_items = (
+                    constraints.get("uniqueItems")
+                    if isinstance(constraints, dict)
+                    else constraints and constraints.unique_items
+                )
+                if not unique_items:
                     continue
                 set_data_type = self._create_set_from_list(model_field.data_type)
                 if set_data_type:  # pragma: no cover
